@@ -13,7 +13,7 @@ import (
 // C15: a URL built for a named route is routed back to it.
 // (build (def ...) i style ((k v) ...) ((k v) ...))   def = (('M ...) 'path nilh) as in rt; style: m | kv | b
 //     obs: ((built 'path (q (k v) ...)) (match <res>) (srv who <params>)) | (panic)
-// (names (op ...) 'name)        op: (addnamed 'n 'path) | (newnamed 'n 'path) | (namedto 'n 'path) | (namedto-attached 'n 'path)
+// (names (op ...) 'name)        op: (addnamed 'n 'path) | (newnamed 'n 'path) | (namedto 'n 'path) | (namedto-attached 'n 'path) | (rename k 'n)
 //     obs: (route 'path) | (none)
 
 var c15Vals = map[string][]string{}
@@ -22,7 +22,11 @@ func c15Gen(r *Rng, tier string, i int) Sx {
 	if i%6 == 5 {
 		names := []string{"a", "b", "home"}
 		var ops []Sx
-		for k := r.Range(1, 5); k > 0; k-- {
+		for k := r.Range(1, 6); k > 0; k-- {
+			if len(ops) > 0 && r.Chance(1, 4) {
+				ops = append(ops, L(A("rename"), I(r.Intn(4)), S(r.Pick([]string{"a", "b", "home", "legacy", " "}))))
+				continue
+			}
 			kind := r.Pick([]string{"addnamed", "newnamed", "namedto", "namedto-attached"})
 			ops = append(ops, L(A(kind), S(r.Pick(names)), S(fmt.Sprintf("/p%d/%s", k, r.Pick([]string{"x", "{id}", "y/"})))))
 		}
@@ -108,18 +112,29 @@ func c15Exec(c Sx) (out Sx) {
 	case "names":
 		r := rux.New()
 		h := func(c *rux.Context) {}
+		var created []*rux.Route
 		for _, op := range c.List[1].Lst() {
+			if op.Head() == "rename" { // an existing route gets a further name
+				if len(created) == 0 {
+					panic("c15: rename before any route")
+				}
+				created[op.List[1].Int()%len(created)].NamedTo(op.List[2].Str(), r)
+				continue
+			}
 			n, p := op.List[1].Str(), op.List[2].Str()
 			switch op.Head() {
 			case "addnamed":
-				r.AddNamed(n, p, h)
+				created = append(created, r.AddNamed(n, p, h))
 			case "newnamed":
-				r.AddRoute(rux.NewNamedRoute(n, p, h))
+				created = append(created, r.AddRoute(rux.NewNamedRoute(n, p, h)))
 			case "namedto":
-				rux.NewRoute(p, h).NamedTo(n, r)
+				rt := rux.NewRoute(p, h)
+				rt.NamedTo(n, r)
+				created = append(created, rt)
 			case "namedto-attached":
 				rt := r.Add(p, h)
 				rt.NamedTo(n, r)
+				created = append(created, rt)
 			default:
 				panic("c15: bad op")
 			}
@@ -182,6 +197,17 @@ func c15Exec(c Sx) (out Sx) {
 			em := rux.M{}
 			for _, p := range extra {
 				em[p.List[0].Str()] = p.List[1].Str()
+			}
+			// the same builder has been used for the other routes of the table before: a builder may be reused
+			for j := range rr.regs {
+				if j != idx && rr.regs[j].Atom == "ok" {
+					func() {
+						defer func() { _ = recover() }()
+						if o := rr.r.GetRoute(fmt.Sprintf("r%d", j)); o != nil {
+							o.ToURL(b)
+						}
+					}()
+				}
 			}
 			uu := rr.r.GetRoute(name).ToURL(b)
 			_ = em
